@@ -642,19 +642,29 @@ class AsyncClient(base_client.BaseClient):
             will_reconnect = False
         error = None
         if self.connected:
+            reported = []
             for n in list(self.namespaces):
                 if n in self._ending_namespaces or n not in self.namespaces:
                     # a DISCONNECT packet for it is being, or has meanwhile
                     # been, processed
                     continue
+                # (marked, so that a disconnect() that the application issues
+                # while the loss is being reported does not report the
+                # namespace a second time)
+                self._ending_namespaces.add(n)
+                reported.append(n)
                 try:
                     await self._trigger_event('disconnect', n, reason)
                 except Exception as exc:
                     # a failing disconnect handler must not prevent the
                     # notification of the other namespaces and the clean up
                     error = error or exc
+                if will_reconnect and self.eio.state != 'connected':
+                    # the application disconnected meanwhile
+                    will_reconnect = False
                 if not will_reconnect:
                     await self._trigger_event('__disconnect_final', n)
+            self._ending_namespaces.difference_update(reported)
             self.connected = False
         if will_reconnect and self.eio.state != 'connected':
             # the application disconnected while the loss was being reported
